@@ -91,6 +91,7 @@ def coq_eval_codes(tag, header, cases, shard=200, timeout=1200):
     import concurrent.futures as cf, re
     d = os.path.join(COQ, "cases")
     os.makedirs(d, exist_ok=True)
+    tag = "%s_p%d" % (tag, os.getpid())
     shard = max(4, min(shard, -(-len(cases) // (2 * NCPU))))      # keep all cores busy
     shards = [(i, cases[i:i + shard]) for i in range(0, len(cases), shard)]
 
